@@ -1,10 +1,12 @@
 """KNOWN_FINDINGS.txt: genuine defects recorded rather than repaired, and the log of repaired ones.
 
-finding: property=<id> obligation=<obligation id> site="<source line text, whitespace-normalised>" what="<text>"
+finding: property=<id> obligation=<obligation id> site="<source line text, whitespace-normalised>" [input="<replay entry> <input>"] what="<text>"
 fixed: property=<id> <commit> <what failed>          (informational; suppresses nothing)
 
-A failed obligation is a known finding only if *every* failing site reported for it is listed; the same
-obligation failing at another site is a new violation.
+A failed obligation is a known finding if *every* failing site reported for it is listed, or -- the code around the defect may be
+rearranged without the defect going away -- if the failing input found for it is the recorded one (same replay entry, same input:
+the specific input that fails identifies the finding).  The same obligation failing at another site *and* with another input is a
+new violation.
 """
 import os
 import re
@@ -22,9 +24,9 @@ def load():
         ln = ln.strip()
         if not ln.startswith("finding:"):
             continue
-        m = re.match(r'finding:\s+property=(\S+)\s+obligation=(.+?)\s+site="(.*?)"\s+what="(.*)"\s*$', ln)
+        m = re.match(r'finding:\s+property=(\S+)\s+obligation=(.+?)\s+site="(.*?)"\s+(?:input="(.*?)"\s+)?what="(.*)"\s*$', ln)
         if m:
-            out.append({"property": m.group(1), "obligation": m.group(2), "site": m.group(3), "what": m.group(4)})
+            out.append({"property": m.group(1), "obligation": m.group(2), "site": m.group(3), "input": m.group(4), "what": m.group(5)})
     return out
 
 
@@ -52,3 +54,14 @@ def match(known, pid, o):
         if st not in sites and "*" not in sites:
             return None
     return cands[0]
+
+
+def match_by_input(known, pid, o, got):
+    """`got`: what the counterexample search found for the failed obligation (vx.cex.find_input)"""
+    if not got or not got.get("reproduced") or got.get("input") is None:
+        return None
+    key = "%s %s" % (got.get("entry"), got.get("input"))
+    for k in known:
+        if k["property"] == pid and k["obligation"] == o["id"] and k.get("input") == key:
+            return k
+    return None
